@@ -14,7 +14,7 @@ RULE = ('mosromgr.cli.main(argv) in-process with captured stdout/stderr. detect 
         'a pool {roCreate, a completed running order, roStoryAppend, compact roReplace, roDelete, roElementAction with an '
         'unrecognised operation, non-XML file, unknown XML, missing path, directory}, plus one canonical document of each of the 25 classes (compact and pretty) before / after another file; merge: every subset of a 5-file pool '
         '{roCreate, roStoryAppend, failing roStoryReplace, roStoryMove, roDelete} in two supply orders x {-i} x {-n} x '
-        '{-o file, stdout}, plus a missing file in the list, plus no -f at all for the three commands; the same commands over a fake S3 bucket (-b with -p / -p -s / -k / nothing). Oracle: per listed '
+        '{-o file, stdout}, plus a missing file in the list, plus an already completed running order fed back in as the roCreate with further messages, plus no -f at all for the three commands; the same commands over a fake S3 bucket (-b with -p / -p -s / -k / nothing). Oracle: per listed '
         'file, in order, "<name>: <Class>[ (completed)]" on stdout (class from MosFile.from_file run by the harness) or the '
         'name marked on stderr; files after a bad one are still reported; inspect returns normally on classifiable files; '
         'merge output (stdout or file bytes) equals str(mc) computed by the harness with the same flags; return value '
@@ -386,6 +386,14 @@ def items_for(tier):
         items.append(('merge', ('ro.mos.xml', 'missing.mos.xml', 'rodelete.mos.xml'), i, False, False))
         items.append(('merge', ('ro.mos.xml', 'not-xml.mos.xml', 'rodelete.mos.xml'), i, True, True))
         items.append(('merge', ('ro.mos.xml', 'unknown.mos.xml', 'rodelete.mos.xml'), i, True, False))
+    # a previously merged (completed) running order fed back in as the roCreate, with further messages: the library refuses
+    # them (strict: MosCompletedMergeError -> exit 2; non-strict: warnings, the completed running order is written)
+    for names in (('completed.mos.xml', 'append.mos.xml'), ('completed.mos.xml', 'm-move.mos.xml', 'append.mos.xml'), ('completed.mos.xml',),
+                  ('append.mos.xml', 'completed.mos.xml')):
+        for i in (False, True):
+            for n_ in (False, True):
+                for o in (False, True):
+                    items.append(('merge', names, i, n_, o))
     return items
 
 
